@@ -24,25 +24,25 @@ type rtCase struct {
 	P       int    `json:"p"`
 	Signed  bool   `json:"signed"`
 	Near    int    `json:"near"`
-	Pred    int    `json:"pred"`
-	Quality int    `json:"q"`
+	Pred    int    `json:"pred,omitempty"`
+	Quality int    `json:"q,omitempty"`
 	// JPEG 2000
 	Levels   int     `json:"levels"`
 	CBW      int     `json:"cbw"`
 	CBH      int     `json:"cbh"`
-	PrecW    int     `json:"precw"`
-	PrecH    int     `json:"prech"`
-	Prog     int     `json:"prog"`
+	PrecW    int     `json:"precw,omitempty"`
+	PrecH    int     `json:"prech,omitempty"`
+	Prog     int     `json:"prog,omitempty"`
 	Layers   int     `json:"layers"`
-	MCT      bool    `json:"mct"`
+	MCT      bool    `json:"mct,omitempty"`
 	TileW    int     `json:"tw"`
 	TileH    int     `json:"th"`
-	Lossless bool    `json:"lossless"`
-	Ratio    float64 `json:"ratio"`
-	AppendLL bool    `json:"appendll"`
-	PCRD     bool    `json:"pcrd"`
-	HT       bool    `json:"ht"`
-	Cls      string  `json:"cls"`
+	Lossless bool    `json:"lossless,omitempty"`
+	Ratio    float64 `json:"ratio,omitempty"`
+	AppendLL bool    `json:"appendll,omitempty"`
+	PCRD     bool    `json:"pcrd,omitempty"`
+	HT       bool    `json:"ht,omitempty"`
+	Cls      string  `json:"cls,omitempty"`
 }
 
 func (c rtCase) cfgJSON() json.RawMessage {
@@ -95,10 +95,10 @@ func (c rtCase) j2kParams() *jpeg2000.EncodeParams {
 }
 
 type decResult struct {
-	pix                  []byte
-	w, h, c, p, near     int
-	signed               bool
-	err                  error
+	pix              []byte
+	w, h, c, p, near int
+	signed           bool
+	err              error
 }
 
 func rtEncode(c rtCase, pix []byte) (stream []byte, err error) {
